@@ -105,7 +105,7 @@ def obligations(chk, specs, tier):
     names = [s['name'] for s in specs]
     t0 = time.time()
     jobs = 8
-    results, tail = run(['harness::' + n for n in names], jobs=jobs, harness_timeout_s=300 if tier == 'quick' else 1200, total_timeout_s=1500 if tier == 'quick' else 7200)
+    results, tail = run(['harness::' + n for n in names], jobs=jobs, harness_timeout_s=1200 if tier == "quick" else 3600, total_timeout_s=3000 if tier == "quick" else 10800)
     log(f'kani: {len(names)} harnesses in {time.time() - t0:.0f}s')
     chk.trusted |= {'Kani 0.68 / CBMC 6.11 (CaDiCaL)', 'kani::any() models of primitive types'}
     import hashlib
